@@ -66,11 +66,13 @@ def build():
         ensures=['self.setting_name in spec', 'result == spec[self.setting_name]'],
         raises={'ConfigurationError': dict(only_if='not (self.setting_name in spec)')})
     # coercion of the raw value is outside the deductive part (dynamic types): it returns some value or rejects, and cannot touch `storage`
+    w.ufunc('CV', ['Op', 'Setting', 'bool'], 'Obj'); w.ufunc('UNIQ', ['Setting', 'Seq[Obj]'], 'Obj'); w.ufunc('LISTOF', ['Obj'], 'Seq[Obj]')
     w.contract(OPS, 'Operation.coerce_value', params={'self': 'Op', 'spec': 'Map[str,Setting]', 'setting': 'Setting', 'allow_missing': 'bool'}, returns='Obj', trusted=True,
+        ensures=['result == CV(self, setting, allow_missing)'],      # a function of the operation, the setting and the leniency flag (which only REM / RESET may set)
         raises={'ConfigurationError': {}, 'ConstraintViolationError': {}})
     w.contract(OPS, 'Operation.coerce_global_value', params={'self': 'Op', 'allow_missing': 'bool'}, returns='Obj', trusted=True, raises={'AssertionError': {}, 'ValueError': {}})
-    w.ext_funcs['_check_object_set_uniqueness'] = dict(params={'setting': 'Setting', 'objs': 'Seq[Obj]'}, returns='Obj', raises={'ConstraintViolationError': {}, 'ConfigurationError': {}})
-    w.ext_funcs['list'] = dict(params={'x': 'Obj'}, returns='Seq[Obj]')
+    w.ext_funcs['_check_object_set_uniqueness'] = dict(params={'setting': 'Setting', 'objs': 'Seq[Obj]'}, returns='Obj', returns_expr='UNIQ(setting, objs)', raises={'ConstraintViolationError': {}, 'ConfigurationError': {}})
+    w.ext_funcs['list'] = dict(params={'x': 'Obj'}, returns='Seq[Obj]', returns_expr='LISTOF(x)')
     w.opaque_exprs['types.ConfigTypeSpec'] = 'Obj'
     OTHERS = 'map_same_except(result, storage, self.setting_name)'
     w.contract(OPS, 'Operation.apply', params={'self': 'Op', 'spec': 'Map[str,Setting]', 'storage': 'Map[str,SV]', 'source': 'Opt[str]'}, returns='Map[str,SV]',
@@ -83,8 +85,20 @@ def build():
             # RESET: the setting is no longer defined at this scope (so lookup falls through to the next scope / the default)
             'implies(self.opcode == OpCode.CONFIG_RESET, not (self.setting_name in result))',
             # an unknown setting is rejected (non-GLOBAL scopes)
-            'implies(self.scope != Scope.GLOBAL, self.setting_name in spec)'],
-        raises={'ConfigurationError': {}, 'ConstraintViolationError': {}, 'InternalServerError': {}, 'AssertionError': {}, 'ValueError': {}})
+            'implies(self.scope != Scope.GLOBAL, self.setting_name in spec)',
+            # SET stores the STRICTLY coerced value (the lenient coercion that lets a missing value through is for REM / RESET alone)
+            'implies(self.opcode == OpCode.CONFIG_SET and self.scope != Scope.GLOBAL, result[self.setting_name].value == CV(self, spec[self.setting_name], False))',
+            # ADD stores the uniqueness-checked union of what is in force at this scope (the stored value, else the default) and the new object
+            'implies(self.opcode == OpCode.CONFIG_ADD and self.setting_name in storage, self.setting_name in result and result[self.setting_name].value == '
+            'UNIQ(spec[self.setting_name], LISTOF(storage[self.setting_name].value) + [CV(self, spec[self.setting_name], False)]))',
+            'implies(self.opcode == OpCode.CONFIG_ADD and not (self.setting_name in storage), self.setting_name in result and result[self.setting_name].value == '
+            'UNIQ(spec[self.setting_name], LISTOF(spec[self.setting_name].default) + [CV(self, spec[self.setting_name], False)]))',
+            'implies(self.opcode == OpCode.CONFIG_REM, self.setting_name in result and result[self.setting_name].scope == self.scope)'],
+        # `+=` / `-=` are refused as "unexpected" only on a setting whose type is NOT an object type
+        raises={'ConfigurationError': {}, 'ConstraintViolationError': {},
+                'InternalServerError': dict(only_if='(self.opcode == OpCode.CONFIG_ADD or self.opcode == OpCode.CONFIG_REM) and self.setting_name in spec '
+                                                    'and not isinstance(spec[self.setting_name].type, types.ConfigTypeSpec)'),
+                'AssertionError': {}, 'ValueError': {}})
     # ---- ConfigMemory: printing then parsing gives back the same number of bytes (all n >= 0)
     w.refclass('CM', {'_value': 'int'}, STA, 'ConfigMemory')
     UNITS = [('B', 1), ('KiB', 1024), ('MiB', 1024 ** 2), ('GiB', 1024 ** 3), ('TiB', 1024 ** 4), ('PiB', 1024 ** 5)]
